@@ -85,7 +85,8 @@ func (f *CSVFormatter) prepareLine(line interface{}) map[string]interface{} {
 	if l.Kind() == reflect.Map {
 		m := map[string]interface{}{}
 		for _, name := range l.MapKeys() {
-			m[name.Interface().(string)] = l.MapIndex(name).Interface()
+			// The keys do not have to be strings.
+			m[fmt.Sprint(name.Interface())] = l.MapIndex(name).Interface()
 		}
 
 		return m
